@@ -27,8 +27,9 @@ type FeatureLocal struct {
 	muxWriteReceived       sync.Mutex
 	writeApprovalReceived  map[string]map[model.MsgCounterType]int
 	pendingWriteApprovals  map[string]map[model.MsgCounterType]*time.Timer
-	// the message of each pending write: a verdict only counts for the message it was given for, and the writing
-	// remote feature tells which writes a removed remote entity takes with it
+	// what is known about each pending write: its message (a verdict only counts for the message it was given for,
+	// and the writing remote feature tells which writes a removed remote entity takes with it) and the number of
+	// callbacks it was presented to
 	pendingWriteSources map[string]map[model.MsgCounterType]*pendingWrite
 
 	bindings      []*model.FeatureAddressType // bindings to remote features
@@ -190,7 +191,8 @@ func (r *FeatureLocal) processWriteApprovalCallbacks(msg *api.Message) {
 }
 
 type pendingWrite struct {
-	msg *api.Message
+	msg       *api.Message
+	approvals int
 }
 
 func (r *FeatureLocal) addPendingApproval(msg *api.Message) {
@@ -228,7 +230,7 @@ func (r *FeatureLocal) addPendingApproval(msg *api.Message) {
 	if _, ok := r.pendingWriteSources[ski]; !ok {
 		r.pendingWriteSources[ski] = make(map[model.MsgCounterType]*pendingWrite)
 	}
-	r.pendingWriteSources[ski][*msg.RequestHeader.MsgCounter] = &pendingWrite{msg: msg}
+	r.pendingWriteSources[ski][*msg.RequestHeader.MsgCounter] = &pendingWrite{msg: msg, approvals: len(r.writeApprovalCallbacks)}
 	r.muxResponseCB.Unlock()
 }
 
@@ -254,6 +256,8 @@ func (r *FeatureLocal) ApproveOrDenyWrite(msg *api.Message, err model.ErrorType)
 			r.muxResponseCB.Unlock()
 			return
 		}
+		// the approvals of the callbacks the write was presented to are needed, not of those added since
+		count = pending.approvals
 	}
 	r.muxResponseCB.Unlock()
 
